@@ -393,3 +393,34 @@ func (c *Ctx) effectFree(label string, cc *ssa.CallCommon) bool {
 }
 
 func fileExists(p string) bool { _, err := os.Stat(p); return err == nil }
+
+// externSig resolves the signature of an external function from its label:
+// "pkg.Func", "(pkg.T).Method" or "(*pkg.T).Method".
+func (c *Ctx) externSig(label string) *types.Signature {
+	if s, ok := c.sigByLabel[label]; ok {
+		return s
+	}
+	var sig *types.Signature
+	if strings.HasPrefix(label, "(") {
+		i := strings.Index(label, ").")
+		if i > 0 {
+			if t, err := c.parseType(label[1:i]); err == nil {
+				obj, _, _ := types.LookupFieldOrMethod(t, true, c.tpkg, label[i+2:])
+				if f, ok := obj.(*types.Func); ok {
+					sig = f.Type().(*types.Signature)
+				}
+			}
+		}
+	} else if i := strings.LastIndex(label, "."); i > 0 {
+		for _, imp := range c.allImports() {
+			if imp.Name() == label[:i] {
+				if f, ok := imp.Scope().Lookup(label[i+1:]).(*types.Func); ok {
+					sig = f.Type().(*types.Signature)
+					break
+				}
+			}
+		}
+	}
+	c.sigByLabel[label] = sig
+	return sig
+}
